@@ -77,6 +77,17 @@ def block_matrix(rng, q0, q1, kind):
             u, _ = np.linalg.qr(generic(rng, (len(r), len(r)), 'complex'))
             v, _ = np.linalg.qr(generic(rng, (len(c), len(c)), 'complex'))
             blk = 0.5 * u[:, :k] @ v[:, :k].conj().T
+        elif kind == 'wide':
+            # singular values spanning many orders of magnitude (exact powers of two): block b has 2^-(30 b) * (1, 1/2, 1/4, ...)
+            k = min(len(r), len(c))
+            u, _ = np.linalg.qr(generic(rng, (len(r), len(r)), 'complex'))
+            v, _ = np.linalg.qr(generic(rng, (len(c), len(c)), 'complex'))
+            blk = (u[:, :k] * (2.0 ** (-30 * bi - np.arange(k)))) @ v[:, :k].conj().T
+        elif kind == 'near_isometry':
+            k = min(len(r), len(c))
+            u, _ = np.linalg.qr(generic(rng, (len(r), len(r)), 'complex'))
+            v, _ = np.linalg.qr(generic(rng, (len(c), len(c)), 'complex'))
+            blk = NEAR * u[:, :k] @ v[:, :k].conj().T
         elif kind == 'dyadic':
             k = min(len(r), len(c))
             blk = np.zeros((len(r), len(c)))
@@ -126,25 +137,81 @@ def layouts(L, d, prof, alph, left_boundary=((0,),), right_alph=None, max_dev=No
         yield qd, qD
 
 
-def mps_tensors(rng, qd, qD, kind):
-    """Site tensors A[i][s,l,r] obeying qd[s]+qD[i][l]-qD[i+1][r]==0, filled according to kind."""
+NEAR = 1.0 + 2.0 ** -18     # within the default relative tolerance of np.allclose / np.isclose (1e-5) of 1, far from 1 at 1e-10
+
+
+def blockwise_isometry(M, rowq, colq):
+    """Replace every charge block of M (rows with charge q x columns with charge q) that has at least as many rows as columns
+    by a matrix with orthonormal columns (own QR per block)."""
+    M = np.array(M, dtype=complex)
+    rowq, colq = np.asarray(rowq), np.asarray(colq)
+    for q in np.unique(colq):
+        c = np.where(colq == q)[0]
+        r = np.where(rowq == q)[0]
+        if len(r) >= len(c) > 0:
+            Q, _ = np.linalg.qr(M[np.ix_(r, c)])
+            M[np.ix_(r, c)] = Q
+    return M
+
+
+def _near_iso(T, qlists, right):
+    """Tensor with physical axes first and (left, right) bond axes last: make it an isometry in the sweep direction where the
+    block sizes allow, times NEAR (so that it is an isometry only under a tolerant comparison)."""
+    S = outer_sum(qlists)          # zero where an entry is allowed
+    nd = T.ndim
+    if right:
+        # columns = left bond axis; rows = (physical..., right bond)
+        perm = list(range(nd - 2)) + [nd - 1, nd - 2]
+        T, S = T.transpose(perm), S.transpose(perm)
+    shp = T.shape
+    M = T.reshape(-1, shp[-1])
+    Sm = S.reshape(-1, shp[-1])
+    # charge labels: rows and columns are connected iff Sm == 0; label each column by its index class, each row by the class it connects to
+    colq = np.arange(shp[-1])
+    first = {}
+    for j in range(shp[-1]):
+        key = tuple(np.where(Sm[:, j] == 0)[0].tolist())
+        colq[j] = first.setdefault(key, j)
+    rowq = np.full(M.shape[0], -1)
+    for j in range(shp[-1]):
+        rowq[Sm[:, j] == 0] = colq[j]
+    M = blockwise_isometry(np.where(Sm == 0, M, 0), rowq, colq) * NEAR
+    T = M.reshape(shp)
+    if right:
+        T = T.transpose(perm)
+    return np.ascontiguousarray(T)
+
+
+def _site_tensors(rng, qd, qD, kind, mpo):
     qd = np.asarray(qd, dtype=np.int64)
     A = []
+    shared = {}
+    base = 'complex' if kind in ('shared', 'near_iso_left', 'near_iso_right') else kind
     for i in range(len(qD) - 1):
         ql = np.asarray(qD[i], dtype=np.int64)
         qr = np.asarray(qD[i + 1], dtype=np.int64)
-        A.append(_fill(rng, [qd, ql, -qr], kind, qr))
+        qlists = [qd, -qd, ql, -qr] if mpo else [qd, ql, -qr]
+        if kind == 'shared':
+            # the same ndarray object at every site with the same charge lists (what `mps.A = L*[a]` gives a user)
+            key = (tuple(ql.tolist()), tuple(qr.tolist()))
+            if key not in shared:
+                shared[key] = _fill(rng, qlists, base, qr)
+            A.append(shared[key])
+            continue
+        T = _fill(rng, qlists, base, qr)
+        if kind.startswith('near_iso'):
+            T = _near_iso(T, qlists, kind.endswith('right'))
+        A.append(T)
     return A
+
+
+def mps_tensors(rng, qd, qD, kind):
+    """Site tensors A[i][s,l,r] obeying qd[s]+qD[i][l]-qD[i+1][r]==0, filled according to kind."""
+    return _site_tensors(rng, qd, qD, kind, False)
 
 
 def mpo_tensors(rng, qd, qD, kind):
-    qd = np.asarray(qd, dtype=np.int64)
-    A = []
-    for i in range(len(qD) - 1):
-        ql = np.asarray(qD[i], dtype=np.int64)
-        qr = np.asarray(qD[i + 1], dtype=np.int64)
-        A.append(_fill(rng, [qd, -qd, ql, -qr], kind, qr))
-    return A
+    return _site_tensors(rng, qd, qD, kind, True)
 
 
 def _fill(rng, qlists, kind, qright):
